@@ -639,6 +639,52 @@ def r_capture_names_checked(ck: Checker, rule: str = "R-VAR-ORDER") -> None:
         ck.incomplete(rule, None, None, f"only {n} `name=` arguments found in the pattern interpreter (3 confirmed by hand: field_spec 2, sequence 1)")
 
 
+def r_format_on_text(ck: Checker, entries, rule: str = "R-EXC-ESCAPE") -> None:
+    """`T.format(...)` parses T as a template: braces in T that are not fields of the call raise IndexError / KeyError / ValueError.  In a
+    compile entry point the messages quote the user's text, so a template must be a literal.  Positive pattern: the receiver of `.format`
+    in an entry point is (or is a local bound to) an expression that contains run-time text — an f-string with a field, a `join`, a
+    concatenation with a non-constant part — and the call is not under a catch-all handler that converts the error."""
+    n = 0
+    for modname, q, _allowed, _params in entries:
+        f = ck.repo.func(modname, q)
+        fn = f.raw or f.node
+        consts = {t.id for st in ck.repo.mod(modname).tree.body if isinstance(st, (ast.Assign, ast.AnnAssign)) and isinstance(getattr(st, "value", None), ast.Constant)
+                  for t in (st.targets if isinstance(st, ast.Assign) else [st.target]) if isinstance(t, ast.Name)}
+
+        def runtime_text(e: ast.AST, depth: int = 0) -> bool:
+            if isinstance(e, ast.Constant):
+                return False
+            if isinstance(e, ast.Name):
+                if e.id in consts:
+                    return False
+                binds = [a.value for a in ast.walk(fn) if isinstance(a, ast.Assign) and len(a.targets) == 1 and isinstance(a.targets[0], ast.Name) and a.targets[0].id == e.id]
+                if len(binds) == 1 and depth < 4:
+                    return runtime_text(binds[0], depth + 1)
+                return True
+            if isinstance(e, ast.BinOp) and isinstance(e.op, ast.Add):
+                return runtime_text(e.left, depth + 1) or runtime_text(e.right, depth + 1)
+            if isinstance(e, ast.JoinedStr):
+                return any(isinstance(v, ast.FormattedValue) for v in e.values)
+            return True
+
+        guarded: set[int] = set()
+        for t in ast.walk(fn):
+            if isinstance(t, ast.Try) and any(h.type is None or (dotted(h.type) or "") in ("Exception", "BaseException") for h in t.handlers):
+                for st in t.body:
+                    guarded |= {id(y) for y in ast.walk(st)}
+        for x in ast.walk(fn):
+            if isinstance(x, ast.Call) and isinstance(x.func, ast.Attribute) and x.func.attr in ("format", "format_map") and not isinstance(x.func.value, ast.Constant):
+                n += 1
+                what = f"{q}: a message template given to str.format is a literal (user text is never parsed as a template)"
+                if runtime_text(x.func.value) and id(x) not in guarded:
+                    ck.violation(rule, f, x, what, positive=True,
+                                 construct=f"{q}: `{norm(x)[:60]}` parses a text assembled at run time (it quotes the user's pattern) as a format template — braces in it raise IndexError / KeyError / ValueError, which is not the definition error")
+                else:
+                    ck.holds(rule, f, x, what)
+    if n == 0:
+        ck.holds(rule, None, None, "no str.format on a non-literal receiver in the compile entry points (positive pattern: nothing to match)")
+
+
 def r_every_subtree_visited(ck: Checker, rule: str = "R-VAR-ORDER") -> None:
     """Compiling a sub-pattern is not a pure function of its parse tree: visiting it registers the capture names it contains, and that
     registration is what rejects a capture name used twice / a variable used before its capture.  Positive pattern: a callback of the
@@ -863,6 +909,7 @@ def run(ck: Checker) -> None:
                        "str methods on the str argument and dict operations keyed by it do not raise"]
     ck.guard("R-EXC-ESCAPE", lambda: r_exc_escape(ck, ENTRIES))
     ck.guard("R-EXC-ESCAPE", lambda: r_handler_attrs(ck, ENTRIES))
+    ck.guard("R-EXC-ESCAPE", lambda: r_format_on_text(ck, ENTRIES))
     ck.guard("R-ENTRY-SIBLING", lambda: r_entry_sibling(ck))
     ck.guard("R-GRAM-EXH", lambda: r_gram_exh(ck))
     ck.guard("R-VAR-ORDER", lambda: r_var_order(ck))
